@@ -60,7 +60,8 @@ struct tko { struct iv_task *o; int exists; };
 struct evo { struct iv_event *o; int exists; int isreg; };
 struct rwo { struct iv_event_raw *o; int exists; int isreg; };
 static struct fdo F[MAXO];
-static struct tmo T[MAXO];
+#define MAXTM 1024
+static struct tmo T[MAXTM];
 static struct tko K[MAXO];
 static struct evo E[MAXO];
 static struct rwo R[MAXO];
@@ -238,7 +239,7 @@ static void one_action(char *act)
 	a1 = strtok_r(NULL, " \t\n", &save);
 	a2 = strtok_r(NULL, " \t\n", &save);
 	/* using freed object memory is invalid use: library calls on a freed struct are skipped */
-	if (a1 != NULL && strcmp(op, "init") && strcmp(op, "free") && strcmp(op, "clk")) {
+	if (a1 != NULL && strcmp(op, "init") && strcmp(op, "free") && strcmp(op, "clk") && strncmp(op, "tburst", 6)) {
 		int n = atoi(a1 + 1) % MAXO;
 		int live = 1;
 		switch (a1[0]) {
@@ -292,6 +293,26 @@ static void one_action(char *act)
 		else if (!strcmp(op, "setout")) iv_fd_set_handler_out(F[i].o, v ? h_out : NULL);
 		else iv_fd_set_handler_err(F[i].o, v ? h_err : NULL);
 		logf_("RET 0\n");
+	} else if (!strcmp(op, "tburst") || !strcmp(op, "tburstoff")) {
+		/* tburst <from> <to>: register timers t<from>..t<to-1> (created on demand) far in the future; tburstoff: unregister them */
+		int from = atoi(a1), to = a2 ? atoi(a2) : from, j;
+		for (j = from; j < to && j < MAXTM; j++) {
+			if (!T[j].exists) {
+				T[j].exists = 1; T[j].o = malloc(sizeof(struct iv_timer)); IV_TIMER_INIT(T[j].o);
+				T[j].o->cookie = (void *)(long)(0x20000 + j); T[j].o->handler = h_timer;
+			}
+			if (T[j].exists != 1) continue;
+			if (!strcmp(op, "tburst") && !iv_timer_registered(T[j].o)) {
+				ts_of(vclock + 3600000000000LL + (long long)j * 1000, &T[j].o->expires);
+				logf_("API timerRegister t%d %lld %lld\n", j, (long long)T[j].o->expires.tv_sec, (long long)T[j].o->expires.tv_nsec);
+				iv_timer_register(T[j].o);
+				logf_("RET 0\n");
+			} else if (!strcmp(op, "tburstoff") && iv_timer_registered(T[j].o)) {
+				logf_("API timerUnregister t%d\n", j);
+				iv_timer_unregister(T[j].o);
+				logf_("RET 0\n");
+			}
+		}
 	} else if (!strcmp(op, "treg") || !strcmp(op, "trel")) {
 		long long ns = a2 ? atoll(a2) : 0;
 		i = objnum(a1, 't');
@@ -488,7 +509,7 @@ static void h_out(void *c) { fd_cb(c, 2, "out"); }
 
 static void h_timer(void *c)
 {
-	int i = cookie_id(c, 0x20000);
+	int i = ((long)c >= 0x20000 && (long)c < 0x20000 + MAXTM) ? (int)((long)c - 0x20000) : -1;
 	if (i < 0) { logf_("CB bad-cookie timer\n"); finish(NULL); }
 	logf_("CB t%d reg=%d\n", i, iv_timer_registered(T[i].o));
 	react('t', i, 0);
@@ -605,6 +626,7 @@ static void apply_stimuli(void)
 			char *a = ST[i].actions;
 			ST[i].actions = NULL;
 			run_actions(a);
+			free(a);
 		}
 }
 
@@ -976,11 +998,13 @@ int main(int argc, char **argv)
 			int i, busy = 0;
 			for (i = 0; i < MAXO; i++) {
 				busy |= F[i].exists == 1 && iv_fd_registered(F[i].o);
-				busy |= T[i].exists == 1 && iv_timer_registered(T[i].o);
+
 				busy |= K[i].exists == 1 && iv_task_registered(K[i].o);
 				busy |= E[i].exists == 1 && E[i].isreg;
 				busy |= R[i].exists == 1 && R[i].isreg;
 			}
+			for (i = 0; i < MAXTM; i++)
+				busy |= T[i].exists == 1 && iv_timer_registered(T[i].o);
 			if (busy) {
 				logf_("CYCLE-SKIPPED objects still registered\n");
 			} else {
